@@ -465,7 +465,7 @@ func checkSendNumbering(p *Prog, r *Report, s Site, base *Term) {
 		if st.Fn != s.Fn {
 			continue
 		}
-		if ids, ok := st.Node.(*ast.IncDecStmt); ok && ids.Tok == token.INC {
+		if _, ok := p.incBy1(st.Node); ok {
 			if pt, ok := c.PointOf(st.Node); ok && c.Dominates(pushPt, pt) && pt.B == pushPt.B {
 				incs++
 				inc = st.Node
@@ -574,12 +574,11 @@ func checkTimeoutCollapse(p *Prog, r *Report) {
 func (p *Prog) incrementedUnderRTO(fi *FuncInfo, v *types.Var) bool {
 	fRes := p.Field("segment", "resendts")
 	for _, a := range p.Assignments(fi, v) {
-		ids, ok := a.Node.(*ast.IncDecStmt)
-		if !ok || ids.Tok != token.INC {
+		if _, ok := p.incBy1(a.Node); !ok {
 			continue
 		}
 		c := p.CFG(fi)
-		pt, ok := c.PointOf(ids)
+		pt, ok := c.PointOf(a.Node)
 		if !ok {
 			continue
 		}
